@@ -153,6 +153,7 @@ func runC17(r *mon.Run) {
 		r.Inconclusive("one OR-branch of the exponentiation step was never proved")
 	}
 	c17Components(r, rng)
+	c17ORForgery(r, rng)
 	r.FloorAccept("complete", 2)
 	r.FloorFam("binding", 5)
 	r.FloorFam("leaf-alter", 20)
@@ -368,6 +369,85 @@ func c17Key(r *mon.Run, rng *rand.Rand, bits, nb, nLeaves, keyNo int) {
 	if !ok {
 		r.Violation("C17/verification-corrupts-proof", "the proof no longer verifies after a series of failed verifications of altered copies", keyRep)
 	}
+}
+
+// ---- (e) OR-composition of the exponentiation sub-proof ----
+
+// c17ORForgery plays the cheating prover of keyproof.VerifExpORForger: an honest proof of a TRUE statement a^b = r (mod n)
+// in which one square-and-multiply step has both OR branches simulated with free sub-challenges must be refused at every
+// step position; with a FALSE r the same forgery at the last step would prove the false statement.
+func c17ORForgery(r *mon.Run, rng *rand.Rand) {
+	const bitlen = 8
+	var f *keyproof.VerifExpORForger
+	var gok bool
+	if pv, _ := mon.Try(func() { f, gok = keyproof.VerifNewExpORForger(bitlen) }); pv != nil || !gok {
+		r.Inconclusive("the proof group for the OR-forgery adversary could not be built")
+		return
+	}
+	steps := f.Steps(bitlen)
+	r.Set("exp_proof_steps", steps)
+	cases := r.Pick(2, 8)
+	for c := 0; c < cases; c++ {
+		n := []int64{251, 241, 239, 233, 229, 227, 223, 211}[c%8]
+		a := int64(2 + rng.IntN(int(n)-3))
+		b := int64(128 + rng.IntN(120)) // top bit set: every step matters
+		if c%2 == 1 {
+			b = int64(1 + rng.IntN(250))
+		}
+		rt := new(big.Int).Exp(bi(a), bi(b), bi(n)).Int64()
+		rf := (rt+40)%(n-2) + 1
+		if rf == rt {
+			rf++
+		}
+		desc := fmt.Sprintf("%d^%d mod %d", a, b, n)
+		run := func(res int64, step int) (ok bool, died bool) {
+			inflight(fmt.Sprintf("OR-forgery %s = %d, step %d", desc, res, step))
+			pv, stack := mon.Try(func() { ok = f.Run(a, b, n, res, bitlen, step) })
+			inflight("")
+			if pv != nil {
+				r.PanicSeen(mon.PanicSite(stack))
+				return false, true
+			}
+			return ok, false
+		}
+		okH, died := run(rt, -1)
+		r.Eval("or-forgery-control", outcome(okH, nil))
+		if !okH || died {
+			r.Violation("C17/honest-exponentiation-proof-rejected", "an honest exponentiation sub-proof of a true statement is rejected ("+desc+")", map[string]any{"case": desc})
+			continue
+		}
+		okF, _ := run(rf, -1)
+		r.Eval("or-forgery-control", outcome(!okF, nil))
+		if okF {
+			r.Violation("C17/false-exponentiation-statement-accepted/honest-prover", fmt.Sprintf("the honest prover run on the false statement %s = %d is accepted", desc, rf), map[string]any{"case": desc, "claimed": rf, "true": rt})
+		}
+		order := rng.Perm(steps)
+		nSteps := steps
+		if !r.Thorough() && nSteps > 4 {
+			nSteps = 4
+		}
+		tried := map[int]bool{}
+		for _, k := range append([]int{steps - 1, 0}, order...) {
+			if tried[k] || len(tried) >= nSteps {
+				continue
+			}
+			tried[k] = true
+			ok, _ := run(rt, k)
+			r.Eval("or-forgery", outcome(ok, nil))
+			r.Distinct("or-forgery", desc, k)
+			if ok {
+				r.Violation("C17/or-composition-accepted-with-free-subchallenges", fmt.Sprintf("exponentiation sub-proof accepted although step %d of %d has both OR branches simulated (sub-challenges do not XOR to the challenge) (%s)", k, steps, desc),
+					map[string]any{"case": desc, "step": k, "steps": steps})
+			}
+		}
+		ok, _ := run(rf, steps-1)
+		r.Eval("or-forgery", outcome(ok, nil))
+		r.Distinct("or-forgery-false", desc)
+		if ok {
+			r.Violation("C17/false-exponentiation-statement-accepted", fmt.Sprintf("the false statement %s = %d (true %d) is accepted with the last step's OR branches both simulated", desc, rf, rt), map[string]any{"case": desc, "claimed": rf, "true": rt})
+		}
+	}
+	r.FloorFam("or-forgery", 6)
 }
 
 // ---- (d) component soundness ----
